@@ -307,6 +307,26 @@ def rule_R6_redirects(text, log):
     return out
 
 
+def rule_R11_drain(text, log):
+    """for P in Q.drain(..) { B }  ->  while let Some(P) = Q.pop_front() { B }
+    (VecDeque: drain(..) yields the elements front to back and leaves the queue empty;
+    only when B has no break / return, so the loop always runs to completion)"""
+    out = text
+    while True:
+        mask = code_mask(out)
+        mm = next((m for m in re.finditer(r'\bfor\s+(.+?)\s+in\s+([\w.]+)\.drain\(\.\.\)\s*\{', out) if mask[m.start()]), None)
+        if not mm:
+            return out
+        ob = mm.end() - 1
+        cb = match_brace(out, mask, ob)
+        body = ''.join(c for k, c in enumerate(out[ob:cb]) if mask[ob + k])
+        if re.search(r'\b(break|return)\b', body) or '?' in body:
+            raise Unsupported('R11: drain loop body with early exit')
+        new = 'while let Some(%s) = %s.pop_front() {' % (mm.group(1), mm.group(2))
+        log.append(('R11', norm_ws(mm.group(0)), new))
+        out = out[:mm.start()] + new + out[mm.end():]
+
+
 def rule_R10_inspect_err(text, log):
     """E.inspect_err(|_| { B })  ->  { let vx_r = E; if vx_r.is_err() { B } vx_r }
     (definition of Result::inspect_err for a closure that ignores its argument);
@@ -375,7 +395,7 @@ class Unit(object):
         self.clauses = []           # dict(fn, section, label, props, text)
         self.items = []             # extracted non-fn items
         self.cells = {}             # type -> [fields]
-        self.rules = set(['R1', 'R2', 'ATTR', 'R4', 'R5', 'R6', 'R10'])
+        self.rules = set(['R1', 'R2', 'ATTR', 'R4', 'R5', 'R6', 'R10', 'R11'])
         self.unit_props = []
         self.lemmas = []
         self.tmpl_fns = []          # hand-written exec/proof fns in template (name, props)
@@ -426,6 +446,8 @@ class Unit(object):
                 text = rule_R6_redirects(text, log)
             if 'R10' in self.rules:
                 text = rule_R10_inspect_err(text, log)
+            if 'R11' in self.rules:
+                text = rule_R11_drain(text, log)
         for r in log:
             self.rule_log.append({'rule': r[0], 'before': r[1], 'after': r[2], 'where': ctx})
         return text
